@@ -177,6 +177,10 @@ FAR = ("FAR lattice: period L = (7-bit significand) * 2^e, |e| <= 30; coordinate
        "-1000 <= f <= 300 (up to 2^330 periods outside the box), or +-0; f64::rem_euclid replaced by the exact integer "
        "lattice model (square-and-multiply), valid for any exponent gap")
 FARLAW = "0 <= w < L; v in [0,L) => w = v; w congruent to the exact residue of v modulo L within 8 ulp(L) on the circle"
+h("C16", "c16", "c16_wrap_coord_far_narrow_1d", "quick", 1500,
+  "ToroidalSpace::wrap_coord<f64>, D=1, NARROW far lattice: L = (7-bit significand)*2^e, |e| <= 2; v = +-(6-bit significand)*2^f, "
+  f"50 <= f <= 90 (|v/L| between 2^47 and 2^95, straddling the 2^53 limit of double-precision quotients); exact integer "
+  f"lattice model of rem_euclid: {FARLAW}", ["topology::spaces::toroidal::ToroidalSpace::wrap_coord"])
 h("C16", "c16", "c16_wrap_coord_far_lattice_1d", "thorough", 6000,
   f"ToroidalSpace::wrap_coord<f64>, D=1, {FAR}: {FARLAW}", ["topology::spaces::toroidal::ToroidalSpace::wrap_coord"])
 h("C16", "c16", "c16_model_canonicalize_far_lattice_1d", "thorough", 6000,
